@@ -2,6 +2,8 @@ package checks
 
 import (
 	"fmt"
+	"os"
+	"path/filepath"
 	"strings"
 	"testing"
 	"time"
@@ -269,6 +271,43 @@ func TestC13(t *testing.T) {
 				b.WriteString(bad[0] + "\n" + bad[1] + "\n")
 			}
 			c.c13Program(s, "texts-with-several-errors", seedProg{Src: b.String(), Kind: "several-errors"}, nBatch, nCLI, true)
+		})
+		// the same input is the same input however the writer hands it over: in one piece, line by line, or in pieces
+		// that end in the middle of lines with pauses in between
+		c.Sub("input-arrives-in-pieces", func(s *Sub) {
+			if c.Shard != 0 {
+				return
+			}
+			P, I := bn.KwPrint, bn.BInput
+			progs := []string{
+				P + " \"<\" + " + I + "() + \">\";\n" + P + " \"<\" + " + I + "(\"second> \") + \">\";\n" + P + " \"end\";\n",
+				bn.KwVar + " all = [];\n" + bn.KwFor + " (" + bn.KwVar + " i = 0; i < 4; i = i + 1) { all = " + bn.BPush + "(all, " + I + "()); }\n" + P + " all;\n",
+			}
+			input := "alpha beta\n  second line  \nthird\n" + strings.Repeat("long ", 2000) + "\nlast without newline"
+			cuts := [][]int{{3}, {5, 11, 12}, {10}, {11}, {1, 2, 3, 4}, {20, 4200}, {len(input) - 5}, {12, 13, 30, 31}}
+			for pi, prog := range progs {
+				p := filepath.Join(c.CLIDir(), fmt.Sprintf("pieces%d.bn", pi))
+				os.WriteFile(p, []byte(prog), 0o644)
+				whole, st0, _ := run.CLIMergedChunks(c.Bin, []string{p}, []string{input}, 0, c.CLIDir(), 30*time.Second)
+				for _, cut := range cuts {
+					var chunks []string
+					prev := 0
+					for _, at := range cut {
+						if at > prev && at < len(input) {
+							chunks = append(chunks, input[prev:at])
+							prev = at
+						}
+					}
+					chunks = append(chunks, input[prev:])
+					got, st, timedOut := run.CLIMergedChunks(c.Bin, []string{p}, chunks, 60*time.Millisecond, c.CLIDir(), 30*time.Second)
+					c.Ev.CLICross++
+					c.Ev.Case("input-arrives-in-pieces", fmt.Sprintf("program %d, cuts %v", pi, cut), true, "input-pieces")
+					if timedOut || st != st0 || got != whole {
+						s.Violation(Replay{Check: "determinism", Sig: "input-pieces", Source: prog, Stdin: input, Note: fmt.Sprintf("the same input delivered in %d pieces (cut at bytes %v, 60 ms apart) gives another run than delivered at once", len(chunks), cut),
+							Expected: fmt.Sprintf("status=%d %q", st0, clip(whole, 300)), Observed: fmt.Sprintf("status=%d %q", st, clip(got, 300))})
+					}
+				}
+			}
 		})
 		c.Rapid("generated-programs", n, func(rt *rapid.T, s *Sub) {
 			seed := drawSeed(rt, examples)
